@@ -58,6 +58,16 @@ class HarnessError(Exception):
     pass
 
 
+def reraise_if_proxy(ex):
+    """A TypeError/ValueError caught by a harness that is really a proxy limitation
+    (its message names a proxy class) must not be taken for behaviour of the code."""
+    msg = str(ex)
+    if not isinstance(ex, (TypeError, AttributeError)):
+        return
+    if any(n in msg for n in ("SymReal", "SymBool", "SymTime", "SymDelta", "SymInt", "SymDay")):
+        raise Unsupported("proxy limitation surfaced as %s: %s" % (type(ex).__name__, msg[:200]))
+
+
 # --------------------------------------------------------------------------- globals
 
 _CTX: "Ctx | None" = None
@@ -404,8 +414,20 @@ class SymReal:
             return NotImplemented
         name = ufunc.__name__
         if any(isinstance(i, np.ndarray) for i in inputs):
-            # let numpy loop over the object array; it will call us back per element
-            return NotImplemented
+            if all(i.ndim == 0 for i in inputs if isinstance(i, np.ndarray)):
+                inputs = tuple(i.item() if isinstance(i, np.ndarray) else i for i in inputs)
+                return ufunc(*inputs) if not any(isinstance(i, SymReal) for i in inputs) \
+                    else self.__array_ufunc__(ufunc, method, *inputs, **kwargs)
+            # elementwise loop over the broadcast inputs; result is an object array
+            arrs = [i if isinstance(i, np.ndarray) else _Scalar(i) for i in inputs]
+            shape = np.broadcast_shapes(*[a.shape for a in arrs if isinstance(a, np.ndarray)])
+            out = np.empty(shape, dtype=object)
+            views = [np.broadcast_to(a, shape) if isinstance(a, np.ndarray) else a for a in arrs]
+            for idx in np.ndindex(*shape):
+                args = [v[idx] if isinstance(v, np.ndarray) else v.v for v in views]
+                args = [a.item() if isinstance(a, np.generic) else a for a in args]
+                out[idx] = ufunc(*args)
+            return out
         if name == "isnan":
             return False
         if name == "isfinite":
@@ -452,6 +474,13 @@ class SymReal:
                 return a if a >= b else b
             return a if a <= b else b
         raise Unsupported("numpy ufunc %s on SymReal" % name)
+
+
+class _Scalar:
+    __slots__ = ("v",)
+
+    def __init__(self, v):
+        self.v = v
 
 
 def sym_float(x):
@@ -561,6 +590,7 @@ class Ctx:
         self.aborted = None
         self.scale = []                             # magnitudes the outputs were computed from
         self.cex_hints = []                         # soft constraints for counterexample search
+        self.noise_ok = 0                           # equalities that hold up to 1e-9 relative only
 
     # ----------------------------------------------------------------- variables
     def _declare(self, name, kind):
@@ -994,13 +1024,28 @@ class Ctx:
         ok = self.prove(name, a == b, info={"lhs": a, "rhs": b, "extra": info})
         if ok is False:
             ob = self.obligations[-1]
-            try:
-                self._refine_cex(ob, a, b, tuple(scale) + tuple(self.scale), info)
-            except BaseException:
-                pass
+            sc = tuple(scale) + tuple(self.scale)
+            r = self._refine_cex(ob, a, b, sc, info, 1e-4)
+            if r != "sat":
+                r = self._refine_cex(ob, a, b, sc, info, 1e-9)
+                if r == "unsat":
+                    # the two sides differ by less than 1e-9 of the magnitudes involved for
+                    # every value on this path: float rounding inside concrete
+                    # sub-computations of the code (rounding is outside every claim)
+                    ob["status"] = "ok"
+                    ob["noise"] = True
+                    ob.pop("model", None)
+                    self.noise_ok += 1
+                    return True
         return ok
 
-    def _refine_cex(self, ob, a, b, scale, info):
+    def _refine_cex(self, ob, a, b, scale, info, rel):
+        try:
+            return self._refine_cex_(ob, a, b, scale, info, rel)
+        except z3.Z3Exception:
+            return "unknown"
+
+    def _refine_cex_(self, ob, a, b, scale, info, rel):
         terms = [x for x in (a, b) + tuple(scale) if isinstance(x, SymReal)]
         consts = [abs(float(x)) for x in (a, b) + tuple(scale) if is_concrete_number(x)]
         S = rv(1.0 + sum(consts))
@@ -1013,7 +1058,7 @@ class Ctx:
         ae = a.e if isinstance(a, SymReal) else rv(a)
         be = b.e if isinstance(b, SymReal) else rv(b)
         d = ae - be
-        delta = rv(1e-4) * S
+        delta = rv(rel) * S
         hints = [h for h in self.cex_hints]
         for h in hints:
             vs |= h.vs
@@ -1039,6 +1084,7 @@ class Ctx:
                 self._model_dirty = True
         else:
             ob["refined"] = False
+        return r
 
     def _export_model_lossy(self, model=None):
         model = self.model if model is None else model
